@@ -44,7 +44,7 @@ ASSUMPTIONS = [
     "B's columns that A lacks are dropped, A's columns that B lacks are zero-filled (documented)",
     "sibling order / node order of the result is free (tags decide)",
 ]
-REQUIRED = ["redirect_checked", "redirect_chained_checked", "cat_checked", "cat_merged",
+REQUIRED = ["operations_under_custom_column_names", "redirect_checked", "redirect_chained_checked", "cat_checked", "cat_merged",
             "cat_linked", "cat_translate", "cat_no_translate", "cat_flag_as_numpy_bool_or_int",
             "size_sweep_cases", "redirect_positional_arguments", "tap_redirect_tree", "tap_cat_tree"]
 FLOOR = {"quick": 2500, "thorough": 300000}
@@ -169,7 +169,15 @@ def _exec_redirect(ctx, case):
     else:
         out = redirect_tree(cur, node_arg, sort=case["sort"])
     ctx.count("redirect_checked")
-    _check_redirect(ctx, case, cols, out, case["node"], case["sort"], what)
+    if _check_redirect(ctx, case, cols, out, case["node"], case["sort"], what):
+        return
+    if type(cur).__name__ == "Tree" and (case["node"] + len(cols["pid"])) % 3 == 0:
+        # the same tree held under custom column names (`names=`): the same re-rooted tree
+        r = G.same_under_renaming(lambda t_: redirect_tree(t_, case["node"], sort=case["sort"]), cur,
+                                  level=len(cols["pid"]) % 2)
+        ctx.count("operations_under_custom_column_names")
+        if r:
+            return ctx.violation("custom-column-names", f"{what}: {r}", case)
     for k, a in cols.items():
         if not np.array_equal(cur.ndata[k], a):
             ctx.violation("input-mutated", f"redirect_tree changed its input column {k!r}", case)
@@ -235,6 +243,13 @@ def _exec_cat(ctx, case):
     ctx.count("cat_checked")
     ctx.count("cat_translate" if tr else "cat_no_translate")
     what = f"cat_tree(a={a}, b={b}, translate={tr})"
+    if type(A).__name__ == "Tree" and type(B).__name__ == "Tree" and (a + b) % 4 == 0:
+        # both trees held under custom column names (`names=`): the same concatenation
+        r = G.same_under_renaming(lambda p_, q_: cat_tree(p_, q_, a, b, translate=tr), A, B,
+                                  level=(a + 2 * b) % 2)
+        ctx.count("operations_under_custom_column_names")
+        if r:
+            return ctx.violation("custom-column-names", f"{what}: {r}", case)
     for T, c, nm in ((A, ca, "tree1"), (B, cb, "tree2")):
         for k, v in c.items():
             if k not in T.ndata or not np.array_equal(T.ndata[k], v):
